@@ -123,6 +123,7 @@ def is_reservation(prog, f, c, depth=2):
     tg = [t for t in prog.resolve(c) if t in prog.fns]
     if not tg:
         return False
+    _RESV = prog.__dict__.setdefault('_resv_memo', {})      # per program (the thorough tier evaluates many programs in one process)
     for t in tg:
         k = (t, depth)
         if k not in _RESV:
